@@ -9,6 +9,10 @@ floats when the program contains std, on xarray DataArrays in 30% of the program
 result is compared with the same operation applied directly with NumPy to the stacked source arrays; dims/coords as
 documented. A statement has no reference value only for a stated reason (counted per reason in the evidence); an
 exception inside the reference itself is a broken check, never "no reference".
+Every statement is evaluated twice — right after it was built and again, every node anew, after the WHOLE program was built (the
+final value is the one judged against NumPy); dims / coordinates / value that differ between the two are a violation of their own
+(`changed-after-build`: value of statement k changed after statement m was built). The actions of the previous program are kept and
+evaluated once more after the next program was built (`changed-by-later-program`: state that outlives a program; the replay holds both).
 Translator: which backend functions carry @batchable is read from backends/__init__.py (Gen/FluentMarks.lean).
 """
 import glob
@@ -49,6 +53,9 @@ RULE = ("random fluent programs: 1-3 sources (1-3 dims, sizes 1-7, int/str label
         "(index, negative index, name, Coord by position or label, backend kwargs, missing dim_size), transform, broadcast (exclude), join (new/existing/"
         "Coord dim, operands of different dims, match_coord_values), arithmetic with scalars and between actions of equal / different dims "
         "(x - x.mean(d), keep_dim), dimensions without coordinate (join on a new name) followed by batched reductions / single-element stack / keep_dim, "
+        "the same operation twice with different backend arguments (two stack / concatenate calls with different axes, two reductions with different "
+        "backend_kwargs incl. keepdims; the first mostly with the method's default backend_kwargs; chained or side by side; ~9% of the operations + "
+        "directed programs, two of them consecutive single-stack programs), "
         "8% of the statements through a.default.<op> / a.<registered subclass>.<op>; ~8% deliberately invalid arguments. non-trivial = program with >= 1 "
         "statement that succeeds and is not a source; distinct by content hash")
 ASSUMPTIONS = [
@@ -171,10 +178,35 @@ def _directed():
     out.append({"stmts": [S2, {"op": "source", "dims": [["d0", [0, 10, 20]], ["d1", ["a", "b"]]], "base": 6}, {"op": "join", "a": 0, "b": 1, "dim": "z", "match": False},
                           {"op": "named", "a": 2, "name": "sum", "dim": "z", "bs": 0, "keep": True, "kw": []},
                           {"op": "named", "a": 0, "name": "max", "dim": "d1", "bs": 0, "keep": True, "kw": []}], "internal": [], "vseed": 10, "float": False})
+    # the same operation twice with different backend arguments, the first ones the method's DEFAULT backend_kwargs (after seeded
+    # change C13_r3m1: stack wrote its axis into the one default dict every stack node held): chained, side by side, and in
+    # two programs that follow each other (the first one's actions are kept and evaluated again after the second was built)
+    stk = lambda a, d, axis, **more: dict({"op": "stack", "a": a, "dim": d, "bs": 0, "keep": False, "axis": axis}, **more)  # noqa: E731
+    cat = lambda a, d, kw, **more: dict({"op": "concatenate", "a": a, "dim": d, "bs": 0, "keep": False, "kw": kw}, **more)  # noqa: E731
+    red = lambda a, nm, d, kw, **more: dict({"op": "named", "a": a, "name": nm, "dim": d, "bs": 0, "keep": False, "kw": kw}, **more)  # noqa: E731
+    out.append({"stmts": [S2, stk(0, "d0", 1), stk(1, "d1", 0)], "internal": [2, 4], "vseed": 11, "float": False})
+    out.append({"stmts": [S2, stk(0, "d0", 2), stk(0, "d1", 0), stk(0, "d0", -1), stk(2, "d0", 1, reg="default")], "internal": [2, 4], "vseed": 12, "float": False})
+    out.append({"stmts": [S2, stk(0, "d0", 2)], "internal": [2, 4], "vseed": 13, "float": False})
+    out.append({"stmts": [S2, stk(0, "d1", 0)], "internal": [2, 4], "vseed": 14, "float": False})
+    out.append({"stmts": [S2, stk(0, "d0", 1, kw=[["dim", "s1"]]), stk(1, "d1", 0, kw=[["dim", "s2"]]), stk(0, "d1", 2, kw=[["dim", "s3"]])],
+                "internal": [2, 3], "vseed": 15, "float": False, "xr": True})
+    out.append({"stmts": [S2, cat(0, "d0", [["axis", 1]]), cat(1, "d1", []), cat(0, "d1", [["axis", -1]]), cat(0, "d0", [], bs=2)],
+                "internal": [2, 4], "vseed": 16, "float": False})
+    out.append({"stmts": [S2, cat(0, "d0", [["dim", "i1"]]), cat(1, "d1", [["dim", "i0"]]), cat(0, "d1", [["dim", "i1"]])],
+                "internal": [2, 3], "vseed": 17, "float": False, "xr": True})
+    out.append({"stmts": [S2, red(0, "sum", "d0", [["keepdims", 1]]), red(0, "sum", "d1", []), red(1, "max", "d1", []),
+                          red(0, "mean", "d0", [["axis", 0]], bs=2), red(0, "prod", "d1", [["keepdims", 0]], keep=True),
+                          red(0, "min", "d0", [["axis", 1], ["keepdims", 1]])], "internal": [2, 4], "vseed": 18, "float": False})
+    out.append({"stmts": [S2, red(0, "sum", "d0", [])], "internal": [3], "vseed": 19, "float": False})
+    out.append({"stmts": [S2, red(0, "sum", "d0", [["keepdims", 1]]), red(0, "max", "d1", [["axis", 1]])], "internal": [3], "vseed": 20, "float": False})
     return out
 
 
-def _signature(kind, st):
+CHANGED ="changed-after-build"             # a LATER STATEMENT of the same program changed what an earlier statement denotes
+CHANGED_LATER = "changed-by-later-program"  # building ANOTHER program changed what a retained action denotes
+
+
+def _signature(kind, st, by=None):
     sig = {"kind": kind, "op": st["op"]}
     if st["op"] == "named":
         sig["name"] = st["name"]
@@ -182,11 +214,13 @@ def _signature(kind, st):
         sig["batched"] = bool(st["bs"] > 1)
     if "keep" in st:
         sig["keep_dim"] = bool(st["keep"])
+    if by is not None:
+        sig["by"] = by["op"]
     return sig
 
 
-def _shrink(prog, k, failing):
-    """drop statements the failing statement does not depend on; then try smaller sizes is left to the replay"""
+def _closure(prog, roots):
+    """(sub-program of the statements the roots depend on, old -> new statement numbers)"""
     from ekw import c13_fluent as F
     need = set()
 
@@ -196,7 +230,8 @@ def _shrink(prog, k, failing):
         need.add(i)
         for o in F.operands(prog["stmts"][i]):
             visit(o)
-    visit(k)
+    for r in roots:
+        visit(r)
     order = sorted(need)
     ren = {old: new for new, old in enumerate(order)}
     stmts = []
@@ -205,25 +240,84 @@ def _shrink(prog, k, failing):
         for key in ("a", "b"):
             if key in st and isinstance(st[key], int) and st["op"] != "source":
                 st[key] = ren[st[key]]
+        if st.get("func") == "lookup":
+            st["r"] = [ren[j] for j in st["r"]]
         stmts.append(st)
-    small = dict(prog, stmts=stmts)
+    return dict(prog, stmts=stmts), ren
+
+
+def _shrink(prog, k, failing, also=()):
+    """drop statements the failing statement (and the statements in `also`) do not depend on; then try smaller sizes is left to the replay"""
+    small, ren = _closure(prog, [k] + list(also))
     try:
-        if failing(small, len(stmts) - 1):
-            return small, len(stmts) - 1
+        if failing(small, ren[k]):
+            return small, ren[k]
     except Exception:
         pass
     return prog, k
 
 
-def check_program(prog):
-    """oracle on the real code: list of (k, kind, text)"""
+def _first_changer(prog, k):
+    """the first statement m > k after whose construction the action of statement k is no longer what it was right after
+    statement k was built (every probe evaluates the graph anew); None if no single build shows it"""
     from ekw import c13_fluent as F
-    real = F.run_real(prog)
+    base, found = [], []
+
+    def hook(when, m, st, env):
+        if when != "after" or found or m < k or isinstance(env[k], tuple):
+            return
+        snap = F.Snapshot(env[k], F.Interp(prog))
+        if m == k:
+            base.append(snap)
+        elif base and F.snapshot_diff(base[0], snap):
+            found.append(m)
+    try:
+        F.run_real(prog, hook=hook)
+    except Exception:
+        return None
+    return found[0] if found else None
+
+
+def check_program(prog):
+    """oracle on the real code: list of (k, kind, text).
+    Every statement is evaluated TWICE: right after it was built (one interpreter that follows the construction) and once more,
+    with a fresh interpreter, after the WHOLE program was built. The value judged against NumPy is the final one (what an
+    executor would compute from the finished graph); a statement whose dims / coordinates / value at the end differ from what
+    they were when it was built is reported on its own (`changed-after-build`: a later statement reached into an existing node)."""
+    from ekw import c13_fluent as F
+    early, eint = {}, F.Interp(prog)
+
+    def hook(when, k, st, env):
+        if when == "after" and not isinstance(env[k], tuple):
+            early[k] = F.Snapshot(env[k], eint)
+    real = F.run_real(prog, hook=hook)
     refs = F.run_ref(prog, real)
     interp = F.Interp(prog)
+    late = {k: F.Snapshot(real[k], interp) for k in sorted(early)}
+    refs.late = late
     out = []
     tainted = set()
+    changed = set()
     for k, (r, rf) in enumerate(zip(real, refs)):
+        if k in early:
+            d = F.snapshot_diff(early[k], late[k])
+            if d:
+                m = _first_changer(prog, k)
+                inherited = m is None and any(o in changed for o in F.operands(prog["stmts"][k]))
+                changed.add(k)
+                if inherited:
+                    # computed from a statement that is reported below as changed: the same cause, seen downstream
+                    refs[k] = None
+                    refs.why[k] = "computed from a statement whose value changed after it was built (reported)"
+                    continue
+                out.append((k, CHANGED, f"value of statement {k} {prog['stmts'][k]} changed after statement "
+                            f"{m if m is not None else '?'} {prog['stmts'][m] if m is not None else ''} was built: {d}", m))
+                continue
+        if any(o in changed for o in F.operands(prog["stmts"][k])):
+            changed.add(k)
+            refs[k] = None
+            refs.why[k] = "computed from a statement whose value changed after it was built (reported)"
+            continue
         if any(o in tainted for o in F.operands(prog["stmts"][k])):
             # float programs only: an operand holds a nan the tolerance accepted (sqrt of a difference that cancels to -eps
             # where the true variance is 0); what is computed FROM a nan is float rounding too, not judged
@@ -233,10 +327,56 @@ def check_program(prog):
             continue
         v = F.oracle_stmt(prog, k, r, rf, interp, F.float_scale(prog, k, refs))
         if v:
-            out.append((k, v[0], v[1]))
+            out.append((k, v[0], v[1], None))
         elif (prog.get("float") or prog.get("xr")) and rf is not None and not isinstance(r, tuple) and F.has_nan(interp, r):
             tainted.add(k)
     return real, refs, out
+
+
+def recheck_retained(prog, real, snaps):
+    """the actions of an EARLIER program, kept alive, evaluated anew: list of (k, text) for the statements that are no longer
+    what they were when their own program was finished"""
+    from ekw import c13_fluent as F
+    interp = F.Interp(prog)
+    out = []
+    for k in sorted(snaps):
+        d = F.snapshot_diff(snaps[k], F.Snapshot(real[k], interp))
+        if d:
+            out.append((k, d))
+    return out
+
+
+def check_pair(first, then):
+    """build and evaluate `first`, build `then`, evaluate `first` again"""
+    from ekw import c13_fluent as F
+    real, refs, _ = check_program(first)
+    F.run_real(then)
+    return recheck_retained(first, real, refs.late)
+
+
+def _report_pair(ctx, first, k, then, text):
+    """shrink (statement k of `first` with what it depends on; the ONE statement of `then`, with what it depends on, that does it) and report"""
+    small, ren = _closure(first, [k])
+    kk = ren[k]
+    try:
+        if not any(v[0] == kk for v in check_pair(small, then)):
+            small, kk = first, k
+    except Exception:
+        small, kk = first, k
+    by = None
+    for m in range(len(then["stmts"])):
+        cand, _ = _closure(then, [m])
+        try:
+            if any(v[0] == kk for v in check_pair(small, cand)):
+                then, by = cand, then["stmts"][m]
+                break
+        except Exception:
+            pass
+    txt = next((v[1] for v in check_pair(small, then) if v[0] == kk), text)
+    ctx.violation(_signature(CHANGED_LATER, small["stmts"][kk], by),
+                  {"prog": small, "statement": kk, "then": then},
+                  f"value of statement {kk} {small['stmts'][kk]} changed after ANOTHER program {then['stmts']} was built "
+                  f"(the action was kept, its graph evaluated again): {txt}")
 
 
 def _why_class(text):
@@ -279,6 +419,7 @@ def correspond(ctx):
     for _ in range(n):
         progs.append(F.gen_program(ctx.rng, max_ops=max_ops, max_pos=48, ext=True))
     reals = []
+    prev, reported = None, set()
     for p in progs:
         real, refs, viol = check_program(p)
         reals.append(real)
@@ -310,19 +451,30 @@ def correspond(ctx):
         ctx.count("depth:%d" % depth)
         ctx.count("ndim:%d" % len(p["stmts"][0]["dims"]))
         seen = set()
-        for k, kind, text in viol:
-            sig = _signature(kind, p["stmts"][k])
+        for k, kind, text, m in viol:
+            sig = _signature(kind, p["stmts"][k], p["stmts"][m] if m is not None else None)
             key = json.dumps(sig, sort_keys=True)
-            if key in seen:
+            if key in seen or (kind == CHANGED and key in reported):
                 continue
             seen.add(key)
+            reported.add(key)
 
             def failing(q, kk, kind=kind):
                 return any(v[0] == kk and v[1] == kind for v in check_program(q)[2])
-            small, kk = _shrink(p, k, failing)
+            small, kk = _shrink(p, k, failing, also=[m] if m is not None else [])
             txt = next((v[2] for v in check_program(small)[2] if v[0] == kk and v[1] == kind), text)
             ctx.violation(sig, {"prog": small, "statement": kk}, txt)
             break   # later statements of the same program usually fail for the same reason
+        # state that outlives a program: the previous program's actions were kept; now that this program has been built on
+        # top of whatever module-lifetime state the fluent API has, they must still denote what they did
+        if prev is not None:
+            ctx.count("retained_programs_rechecked")
+            for k, text in recheck_retained(*prev)[:1]:
+                key = json.dumps(_signature(CHANGED_LATER, prev[0]["stmts"][k]), sort_keys=True)
+                if key not in reported:
+                    reported.add(key)
+                    _report_pair(ctx, prev[0], k, p, text)
+        prev = (p, real, refs.late) if not viol else None
     compare_model(ctx, progs, reals)
     ctx.extra["tolerance"] = "exact Fractions; only programs containing std run on floats: rtol 1e-7, atol 1e-6 x magnitude of the operand, and nan accepted where NumPy gives |std| <= 1e-4 x magnitude (cancellation in the rewrite: float rounding is outside the property)"
 
@@ -389,18 +541,24 @@ def search(ctx, why):
                                    "float": any(s.get("name") == "std" for s in c["stmts"])}, **({"xr": True} if c.get("xr") else {})))
     for _ in range(ctx.budget(600, 3000)):
         progs.append(F.gen_program(ctx.rng, max_ops=5, max_pos=48, ext=True))
+    seen_sigs = set()
     for p in progs:
         try:
             _, _, viol = check_program(p)
         except Exception:
             continue
         ctx.count("search_programs")
-        for k, kind, text in viol[:1]:
-            sig = _signature(kind, p["stmts"][k])
+        for k, kind, text, m in viol[:1]:
+            sig = _signature(kind, p["stmts"][k], p["stmts"][m] if m is not None else None)
+            key = json.dumps(sig, sort_keys=True)
+            if key in seen_sigs:       # one failing input per kind of failure (shrinking re-runs the program)
+                ctx.count("search_violations_of_a_kind_already_reported")
+                continue
+            seen_sigs.add(key)
 
             def failing(q, kk, kind=kind):
                 return any(v[0] == kk and v[1] == kind for v in check_program(q)[2])
-            small, kk = _shrink(p, k, failing)
+            small, kk = _shrink(p, k, failing, also=[m] if m is not None else [])
             ctx.violation(sig, {"prog": small, "statement": kk}, text)
 
 
@@ -414,5 +572,12 @@ def replay(payload):
     for k, (st, r) in enumerate(zip(prog["stmts"], real)):
         print(k, st, "->", r if isinstance(r, tuple) else (tuple(map(str, r.nodes.dims)), r.nodes.shape))
     for v in viol:
-        print("oracle:", v)
+        print("oracle:", v[:3])
+    then = payload["case"].get("then")
+    if then is not None:
+        pair = check_pair(prog, then)
+        print("then:", then["stmts"])
+        for v in pair:
+            print("oracle (statement of the first program, evaluated again after the second was built):", v)
+        return 1 if (viol or pair) else 0
     return 1 if viol else 0
